@@ -59,9 +59,44 @@ ASSUMPTIONS = [
     "Population.map is run inside a kernel worker by clearing the worker's multiprocessing 'daemon' flag for the call",
 ]
 
-UNIVERSE = ("a.swc", "b.swc", "sub/c.swc", "sub/deep/d.swc", "sub/a.swc", "sub/deep/e.swc", "z.swc")
-DECOY_FILES = ("notes.txt", "sub/readme.txt", "b.swc.bak", "swc", "sub/deep/d.swc.txt")
-DECOY_DIRS = ("empty", "trap.swc", "sub/void")
+_EXT = [".swc"]  # extension of the files the current case is about: ".swc" (from_swc) or ".eswc" (from_eswc)
+_STEMS = ("a", "b", "sub/c", "sub/deep/d", "sub/a", "sub/deep/e", "z")
+
+
+def set_ext(ext):
+    _EXT[0] = ext
+
+
+class _Universe:
+    """The case's file names: stems + the extension under test (so that every space can be run for .swc and for .eswc)."""
+
+    def __getitem__(self, k):
+        if isinstance(k, slice):
+            return tuple(x + _EXT[0] for x in _STEMS[k])
+        return _STEMS[k] + _EXT[0]
+
+    def __len__(self):
+        return len(_STEMS)
+
+    def __iter__(self):
+        return iter(x + _EXT[0] for x in _STEMS)
+
+    def index(self, rel):
+        return [x + _EXT[0] for x in _STEMS].index(rel)
+
+
+UNIVERSE = _Universe()
+_DECOY_FILES = ("notes.txt", "sub/readme.txt", "b.swc.bak", "swc", "sub/deep/d.swc.txt", "b.eswc.bak", "eswc")
+DECOY_DIRS = ("empty", "trap.swc", "sub/void", "trap.eswc")
+
+
+def decoy_files():
+    """Files that must never be taken for members - among them same-named files with the OTHER extension."""
+    other = ".eswc" if _EXT[0] == ".swc" else ".swc"
+    return _DECOY_FILES + ("a" + other, "sub/c" + other, "q" + other)
+
+
+ESWC_TAIL = " 1 2 3 4 5"  # the five extra eswc columns
 RADIUS = 1.0
 MARK = 7.0
 
@@ -179,7 +214,7 @@ def swc_text(r, f):
     base = 1000 * (r + 1) + 10 * (f + 1)
     rows = [f"# tag {r} {f}"]
     for j in range(n_nodes(f)):
-        rows.append(f"{j + 1} {1 if j == 0 else 3} {base + j} 0 0 {RADIUS:g} {j if j else -1}")
+        rows.append(f"{j + 1} {1 if j == 0 else 3} {base + j} 0 0 {RADIUS:g} {j if j else -1}" + (ESWC_TAIL if _EXT[0] == ".eswc" else ""))
     return "\n".join(rows) + "\n"
 
 
@@ -213,7 +248,7 @@ def write_root(path, files, r=0, decoys=True, reverse=False):
         with open(p, "w") as fh:
             fh.write(swc_text(r, f))
     if decoys:
-        for i, d in enumerate(DECOY_FILES):
+        for i, d in enumerate(decoy_files()):
             p = os.path.join(path, d)
             os.makedirs(os.path.dirname(p), exist_ok=True)
             with open(p, "w") as fh:
@@ -224,7 +259,7 @@ def write_root(path, files, r=0, decoys=True, reverse=False):
 
 def is_swc_name(name):
     stem, dot, ext = name.rpartition(".")
-    return dot == "." and ext == "swc" and stem != ""
+    return dot == "." and "." + ext == _EXT[0] and stem != ""
 
 
 def walk_order(root):
@@ -472,7 +507,7 @@ def spec_kind(spec):
 
 # --------------------------------------------------------------------------- history space
 
-VARIANTS = ("from_swc", "lazy-list", "lazy-gen", "deprecated", "eager")
+VARIANTS = ("from_swc", "lazy-list", "lazy-gen", "deprecated", "eager", "from_eswc", "from_swc(ext)")
 _EVENTS: dict = {}
 
 CHAIN_T = ["trees"]
@@ -525,8 +560,11 @@ def history_events(n, tier, menu="full"):
     return ev
 
 
+ESWC_VARIANTS = ("from_eswc", "from_swc(ext)")
+
+
 def menu_of(variant, tier):
-    return "full" if (tier != "quick" or variant in ("from_swc", "eager")) else "core"
+    return "full" if (tier != "quick" or variant in ("from_swc", "eager", "from_eswc")) else "core"
 
 
 def make_population(variant, root, paths):
@@ -535,6 +573,10 @@ def make_population(variant, root, paths):
 
     if variant == "from_swc":
         return Population.from_swc(root)
+    if variant == "from_eswc":
+        return Population.from_eswc(root)
+    if variant == "from_swc(ext)":
+        return Population.from_swc(root, ext=".eswc", extra_cols=["level", "mode", "timestamp", "teraflyindex", "feature_value"])
     if variant == "lazy-list":
         return Population(LazyLoadingTrees(list(paths)), root=root)
     if variant == "lazy-gen":
@@ -569,8 +611,12 @@ def setup_population(R, sc, files, variant, r=0, name="pop"):
     ctx = lambda: f"files={[UNIVERSE[f] for f in order]} (walk order) constructor={variant}"  # noqa: E731
 
     with watch(sc.dir) as log:
-        ok, listed = R.impl("find_swcs", Population.find_swcs, root)
-        ok2, listed_rel = R.impl("find_swcs(relpath)", Population.find_swcs, root, relpath=True)
+        if _EXT[0] == ".swc":
+            ok, listed = R.impl("find_swcs", Population.find_swcs, root)
+            ok2, listed_rel = R.impl("find_swcs(relpath)", Population.find_swcs, root, relpath=True)
+        else:
+            ok, listed = R.impl("find_swcs", Population.find_swcs, root, _EXT[0])
+            ok2, listed_rel = R.impl("find_swcs(relpath)", Population.find_swcs, root, ext=_EXT[0], relpath=True)
     if ok:
         R.check([norm(x) for x in listed] == [norm(x) for x in paths], "find_swcs",
                 lambda: f"{ctx()}: find_swcs -> {[os.path.relpath(x, root) for x in listed]}", "find_swcs:listing")
@@ -590,6 +636,7 @@ def setup_population(R, sc, files, variant, r=0, name="pop"):
 
 def check_history(case, R):
     files, variant, depth, tier = list(case[0]), case[1], int(case[2]), case[3]
+    set_ext(".eswc" if variant in ESWC_VARIANTS else ".swc")
     n = len(files)
     if n == 0:
         R.trivial()
@@ -673,6 +720,7 @@ def check_history(case, R):
 
 
 def check_index_slice(case, R):
+    set_ext(".swc")
     files, steps = list(case[0]), [None if s is None else int(s) for s in case[1]]
     n = len(files)
     if n == 0:
@@ -742,6 +790,7 @@ def memory_tree(f):
 
 
 def check_chain(case, R):
+    set_ext(".swc")
     from swcgeom.core import Population
     from swcgeom.core.population import ChainTrees, LazyLoadingTrees
 
@@ -865,6 +914,7 @@ def check_populations(case, R):
     subsets = [list(x) for x in case[0]]
     mode, form, rev = case[1], case[2], bool(case[3])
     spell = int(case[4]) if len(case) > 4 else 0
+    set_ext(".eswc" if form.startswith("eswc") else ".swc")
     nroots = len(subsets)
     with Scratch() as sc, Cwd(sc.dir if spell in (3, 4) else None):
         spy_selftest(R, sc)
@@ -899,6 +949,10 @@ def check_populations(case, R):
                 return Populations.from_swc(tuple(lib_roots), labels=list(labels), **kw)
             if form == "gen":
                 return Populations.from_swc((x for x in lib_roots), labels=(x for x in labels), **kw)
+            if form == "eswc-list":
+                return Populations.from_eswc(list(lib_roots), **kw)
+            if form == "eswc-gen":
+                return Populations.from_eswc((x for x in lib_roots), labels=(x for x in labels), **kw)
             assert mode == "plain"
             pops = [Population.from_swc(x) for x in lib_roots]
             if form == "ctor-list":
@@ -971,7 +1025,7 @@ def check_populations(case, R):
             ok2, npop = quiet("num_of_populations", ps.num_of_populations)
             if ok2:
                 R.check(npop == nroots, "populations:count", lambda: f"{ctx()}: {npop} populations for {nroots} roots", f"populations:count:{form}")
-            want_labels = [""] * nroots if form in ("list", "ctor-list") else labels
+            want_labels = [""] * nroots if form in ("list", "ctor-list", "eswc-list") else labels
             R.check(list(getattr(ps, "labels", [])) == want_labels, "populations:labels", lambda: f"{ctx()}: labels {getattr(ps, 'labels', None)} want {want_labels}",
                     f"populations:labels:{form}")
             R.outcome(mode, m, nroots, equal, same_lists)
@@ -1129,6 +1183,7 @@ def two_view(spec, ns):
 
 
 def check_two(case, R):
+    set_ext(".swc")
     from swcgeom.core import Population
     from swcgeom.core.population import ChainTrees
 
@@ -1286,6 +1341,7 @@ SIZE_PATTERNS = {"ones": (1,), "012": (0, 1, 2), "201": (2, 0, 1)}
 
 
 def check_sizes(case, R):
+    set_ext(".swc")
     from swcgeom.core import Population
     from swcgeom.core.population import ChainTrees
 
@@ -1322,12 +1378,12 @@ def check_sizes(case, R):
         root = os.path.join(sc.dir, "flat")
         os.makedirs(root)
         for e in range(n):
-            with open(os.path.join(root, f"g{e:03d}.swc"), "w") as fh:
+            with open(os.path.join(root, f"g{e:04d}.swc"), "w") as fh:
                 fh.write(flat_text(e))
         order = []
         for r_, _d, fs in os.walk(root):
-            order += [int(f[1:4]) for f in fs if is_swc_name(f)]
-        table = {norm(os.path.join(root, f"g{e:03d}.swc")): (0, e) for e in range(n)}
+            order += [int(f[1:5]) for f in fs if is_swc_name(f)]
+        table = {norm(os.path.join(root, f"g{e:04d}.swc")): (0, e) for e in range(n)}
         keyof = lambda x: table.get(norm(x), "decoy:" + os.path.basename(x))  # noqa: E731
         ctx = lambda: f"flat directory of {n} files"  # noqa: E731
         with watch(sc.dir) as log:
@@ -1406,6 +1462,7 @@ MAP_MODES = ("map:1", "map:2", "map:verbose", "map:slice", "map:chain", "map:tra
 
 
 def check_map(case, R):
+    set_ext(".swc")
     from swcgeom.core import Population
     from swcgeom.core.population import ChainTrees
     from swcgeom.transforms import Identity, PopulationTransform
@@ -1545,8 +1602,14 @@ def spaces(tier, seed):
             for mode in MODES:
                 for form in ("list", "tuple", "gen") + (("ctor-list", "ctor-gen") if mode == "plain" else ()):
                     yield [[a], mode, form, 0]
+                yield [[a], mode, "eswc-list", 0]
         for a in subs:
             for b in subs:
+                # the same directories holding .eswc files (and same-named .swc decoys), through Populations.from_eswc
+                yield [[a, b], "intersect", "eswc-list", 0]
+                yield [[a, b], "intersect", "eswc-gen", 1]
+                yield [[a, b], "plain", "eswc-list", 1]
+                yield [[a, b], "check_same", "eswc-gen", 0]
                 yield [[a, b], "intersect", "list", 0]
                 yield [[a, b], "intersect", "gen", 0]
                 for rev in (0, 1):
@@ -1578,7 +1641,7 @@ def spaces(tier, seed):
 
     out.append(Space.of("populations", gen_populations, check_populations,
                         bounds={"pair_universe": [UNIVERSE[f] for f in pu], "triple_universe": [UNIVERSE[f] for f in tu], "modes": list(MODES),
-                                "arguments_as": ["list", "tuple", "gen", "ctor-list", "ctor-gen"], "access_orders": ["rows-first", "chain-first"],
+                                "arguments_as": ["list", "tuple", "gen", "ctor-list", "ctor-gen", "eswc-list (Populations.from_eswc)", "eswc-gen"], "access_orders": ["rows-first", "chain-first"],
                                 "creation_order": "second root's files created in the same / the reverse order",
                                 "root_spellings": ROOT_SPELLINGS}))
 
@@ -1602,15 +1665,17 @@ def spaces(tier, seed):
     # size sweeps
     n_pop, n_mem = (16, 48) if quick else (64, 200)
 
+    big = [31, 32, 33, 63, 64, 65, 127, 128, 129, 255, 256, 257, 258, 300] + ([] if quick else [511, 512, 513, 1023, 1024, 1025, 1500])
+
     def gen_sizes():
-        for n in range(0, n_pop + 1):
+        for n in list(range(0, n_pop + 1)) + [b for b in big if b > n_pop]:
             yield ["pop", n]
         for k in range(1, n_mem + 1):
             for pat in SIZE_PATTERNS:
                 yield ["chain", k, pat]
 
     out.append(Space.of("sizes", gen_sizes, check_sizes,
-                        bounds={"population_sizes": f"every n in 0..{n_pop} (flat directory)", "chain_members": f"every k in 1..{n_mem} x size patterns {list(SIZE_PATTERNS)}",
+                        bounds={"population_sizes": f"every n in 0..{n_pop} (flat directory) and {[b for b in big if b > n_pop]}: every index from both ends, a full second pass, slices", "chain_members": f"every k in 1..{n_mem} x size patterns {list(SIZE_PATTERNS)}",
                                 "indices": "every index in [-N-1, N]"}))
 
     # map / transform
